@@ -515,6 +515,74 @@ pub fn run_ibatch(c: &IBatch, st: &mut Stats) -> CaseResult {
 	Ok(())
 }
 
+// ---------------------------------------------------------------------------------------
+// documented accessors agree with the main path
+
+/// `get_last_value` / `get_value` / `b()` return the value `next` has just produced (bit-exact), `get_divider`
+/// is 1/length, `get_window` / `get_sma` / `get_smm` expose the state the outputs are computed from, and
+/// LinReg's `tan()` is the slope of the line whose newest point `next` returns.
+fn run_accessors(c: &gen::ValStream, st: &mut Stats) -> CaseResult {
+	use crate::approx::{allow, eps, Mag};
+	use crate::refm::{self, sel, win};
+	let n = (c.n.clamp(2, 254)) as PeriodType;
+	let nn = n as usize;
+	let xs: Vec<f64> = c.xs.iter().map(|x| gen::vt(*x)).collect();
+	let init = gen::vt(c.init);
+	let v = |x: f64| x as ValueType;
+	let mut sma = SMA::new(n, &v(init)).map_err(|e| Failure::new("C09:accessors:ctor", format!("{e:?}")))?;
+	let mut smm = SMM::new(n, &v(init)).map_err(|e| Failure::new("C09:accessors:ctor", format!("{e:?}")))?;
+	let mut vid = Vidya::new(n, &v(init)).map_err(|e| Failure::new("C09:accessors:ctor", format!("{e:?}")))?;
+	let mut lin = LinReg::new(n, &v(init)).map_err(|e| Failure::new("C09:accessors:ctor", format!("{e:?}")))?;
+	let mut mad = MeanAbsDev::new(n, &v(init)).map_err(|e| Failure::new("C09:accessors:ctor", format!("{e:?}")))?;
+	let mut med = MedianAbsDev::new(n, &v(init)).map_err(|e| Failure::new("C09:accessors:ctor", format!("{e:?}")))?;
+	ensure!(sma.get_divider() as f64 == ((n as ValueType).recip()) as f64, "C09:SMA:get_divider", "SMA({n}).get_divider() = {:e}", sma.get_divider());
+	let mut mag = Mag::new(init);
+	for (t, &x) in xs.iter().enumerate() {
+		let m = mag.add(x);
+		let w = refm::window(&xs, init, t, nn);
+		let o = sma.next(&v(x));
+		ensure!(sma.get_last_value().to_bits() == o.to_bits(), "C09:SMA:get_last_value", "SMA({n}) step {t}: get_last_value() = {:e}, next returned {:e}", sma.get_last_value(), o);
+		let got: Vec<f64> = sma.get_window().iter_rev().map(|y| *y as f64).collect();
+		ensure!(got == w, "C09:SMA:get_window", "SMA({n}) step {t}: get_window() does not hold the last {n} inputs");
+		let o = smm.next(&v(x));
+		ensure!(smm.get_last_value().to_bits() == o.to_bits() || (smm.get_last_value() == o && o == 0.0), "C09:SMM:get_last_value", "SMM({n}) step {t}: get_last_value() = {:e}, next returned {:e}", smm.get_last_value(), o);
+		let o = vid.next(&v(x));
+		ensure!(vid.get_last_value().to_bits() == o.to_bits(), "C09:Vidya:get_last_value", "Vidya({n}) step {t}: get_last_value() = {:e}, next returned {:e}", vid.get_last_value(), o);
+		let o = lin.next(&v(x));
+		ensure!(lin.b().to_bits() == o.to_bits(), "C09:LinReg:b", "LinReg({n}) step {t}: b() = {:e}, next returned {:e}", lin.b(), o);
+		// the least-squares line through the window passes through (mean position, mean value): value at the newest
+		// point = mean + slope * (n-1)/2
+		let mean = win::mean(&w);
+		let slope = (o as f64 - mean) * 2.0 / (nn as f64 - 1.0);
+		let tol = 8.0 * allow(nn, t, m, 6.0) / (nn as f64 - 1.0) + 8.0 * eps() * slope.abs();
+		ensure!((lin.tan() as f64 - slope).abs() <= tol, "C09:LinReg:tan", "LinReg({n}) step {t}: tan() = {:e}, the line through the returned value and the window mean has slope {:e} (allowance {:e})", lin.tan(), slope, tol);
+		mad.next(&v(x));
+		let a = allow(nn, t, m, 1.0);
+		ensure!((mad.get_sma().peek() as f64 - mean).abs() <= a, "C09:MeanAbsDev:get_sma", "MeanAbsDev({n}) step {t}: get_sma().peek() = {:e}, window mean {:e}", mad.get_sma().peek(), mean);
+		med.next(&v(x));
+		ensure!(med.get_smm().peek() as f64 == sel::median(&w), "C09:MedianAbsDev:get_smm", "MedianAbsDev({n}) step {t}: get_smm().peek() = {:e}, window median {:e}", med.get_smm().peek(), sel::median(&w));
+	}
+	if xs.len() > 2 * nn {
+		st.nontrivial(engine::mix(n as u64, engine::fnv_f64s(&xs)));
+	}
+	st.count("steps", xs.len() as u64);
+	st.sample("accessors", || serde_json::json!({"n": n, "stream_len": xs.len(), "init": init}));
+	Ok(())
+}
+
+fn run_accessors_adi(c: &CandleStream, st: &mut Stats) -> CaseResult {
+	let n = (c.n % 40) as PeriodType;
+	let mut m = ADI::new(n, &c.cs[0].candle()).map_err(|e| Failure::new("C09:accessors:ctor", format!("{e:?}")))?;
+	for (t, k) in c.cs.iter().enumerate() {
+		let o = m.next(&k.candle());
+		ensure!(m.get_value().to_bits() == o.to_bits(), "C09:ADI:get_value", "ADI({n}) step {t}: get_value() = {:e}, next returned {:e}", m.get_value(), o);
+	}
+	if c.cs.len() > 3 {
+		st.nontrivial(engine::fnv(format!("{:?}{}", &c.cs[..c.cs.len().min(8)], n).as_bytes()));
+	}
+	Ok(())
+}
+
 pub fn def(tier: Tier) -> PropertyDef {
 	let mut checks: Vec<Box<dyn SubCheck>> = Vec::new();
 	let max_len = tier.pick(100usize, 200);
@@ -557,11 +625,13 @@ pub fn def(tier: Tier) -> PropertyDef {
 		});
 		checks.push(pt(&format!("indicator_{name}"), tier.pick(1200, 30000), strat, run_ibatch));
 	}
+	checks.push(pt("accessors", tier.pick(6000, 60000), gen::val_stream(2, tier.pick(300, 1000), gen::Domain::Any, true), run_accessors));
+	checks.push(pt("accessors_adi", tier.pick(3000, 30000), gen::candle_stream(1, 300), run_accessors_adi));
 	checks.extend(crate::fuzz_entry::corpus_checks("C09"));
 	PropertyDef {
 		id: "C09",
 		level: "exploration",
-		rule: "Per method (44 concrete types, instantiated statically): generated valid parameters and streams of 1..200 elements (sub-checks long_batch_*: up to 700, thorough 2000, so that histories, chunk and clone positions pass PeriodType::MAX), generated chunkings incl. empty chunks, generated clone points. Reference = element-wise next on a twin instance; over/call/apply in chunks, new_over/new_apply (empty input => Ok(empty)), into_fn, new_fn must return bit-identical sequences of exactly the input length; WithHistory against a Vec model (get(i) = i-th newest, iter/into_iter oldest first); WithLastValue = inner instance fed the initial value once, peek = last output; clone fed a different continuation than the original, each equal to a third instance replayed on its own history. Peekable::peek() after each next = the value just returned, for each of the 30 Peekable impls. Indicators: IndicatorConfig::over/init_fn, IndicatorInstance::over (chunked)/into_fn, clone independence. Non-trivial = >= 2 non-empty chunks and an empty one, or a clone taken at a rotated ring position; distinct by hash.",
+		rule: "Per method (44 concrete types, instantiated statically): generated valid parameters and streams of 1..200 elements (sub-checks long_batch_*: up to 700, thorough 2000, so that histories, chunk and clone positions pass PeriodType::MAX), generated chunkings incl. empty chunks, generated clone points. Reference = element-wise next on a twin instance; over/call/apply in chunks, new_over/new_apply (empty input => Ok(empty)), into_fn, new_fn must return bit-identical sequences of exactly the input length; WithHistory against a Vec model (get(i) = i-th newest, iter/into_iter oldest first); WithLastValue = inner instance fed the initial value once, peek = last output; clone fed a different continuation than the original, each equal to a third instance replayed on its own history. Peekable::peek() after each next = the value just returned, for each of the 30 Peekable impls; the documented accessors (SMA/SMM/Vidya get_last_value, ADI get_value, LinReg b()/tan(), SMA get_divider/get_window, MeanAbsDev get_sma, MedianAbsDev get_smm) agree with the main path. Indicators: IndicatorConfig::over/init_fn, IndicatorInstance::over (chunked)/into_fn, clone independence. Non-trivial = >= 2 non-empty chunks and an empty one, or a clone taken at a rotated ring position; distinct by hash.",
 		assumptions: vec!["methods with unsized input (dyn OHLCV: ADI, TR, HeikinAshi, Renko) or pair input (VWMA, Cross*; no Sequence impl for pairs) have no over/call/apply; they are covered by into_fn/new_fn/wrappers/clone".into()],
 		exhaustive: false,
 		checks,
